@@ -25,7 +25,19 @@ import (
 
 type wktGen struct {
 	eqGen
-	recv string // name of the receiver / the *SR variable
+	recv   string              // name of the receiver / the *SR variable
+	consts map[string]ast.Expr // package-level constants of package proj (name -> value expression)
+	used   []string            // numeric constants referred to by translated code, in order of first use
+}
+
+func (g *wktGen) useConst(n string) string {
+	for _, u := range g.used {
+		if u == n {
+			return "gen_" + n
+		}
+	}
+	g.used = append(g.used, n)
+	return "gen_" + n
 }
 
 // wexpr: expressions over the fields of the reference `recv`, local identifiers, string literals, deg2rad
@@ -40,11 +52,22 @@ func (g *wktGen) wexpr(e ast.Expr) string {
 		case "val", "convert", "filename", "fname":
 			return t.Name
 		}
+		if v, ok := g.consts[t.Name]; ok {
+			if l, ok := v.(*ast.BasicLit); ok && l.Kind == token.STRING {
+				return g.wexpr(l)
+			}
+			if g.isNumConst(v) {
+				return "(ofRat " + g.useConst(t.Name) + ")"
+			}
+		}
 	case *ast.BasicLit:
 		if t.Kind == token.STRING {
 			if v, err := strconv.Unquote(t.Value); err == nil && !strings.ContainsAny(v, "\"\\\n") {
 				return "(s \"" + v + "\")"
 			}
+		}
+		if t.Kind == token.INT || t.Kind == token.FLOAT {
+			return "(ofRat (" + leanRat(ratOf(t)) + "))"
 		}
 	case *ast.SelectorExpr:
 		if id, ok := t.X.(*ast.Ident); ok && id.Name == g.recv {
@@ -68,9 +91,22 @@ func (g *wktGen) wexpr(e ast.Expr) string {
 			return "(" + g.wexpr(t.X) + " && " + g.wexpr(t.Y) + ")"
 		case token.LOR:
 			return "(" + g.wexpr(t.X) + " || " + g.wexpr(t.Y) + ")"
-		case token.EQL: // only strings are compared with == in these statements
+		case token.EQL: // strings: decidable equality; floats: IEEE ==
 			if g.isStr(t.X) || g.isStr(t.Y) {
 				return "(decide (" + g.wexpr(t.X) + " = " + g.wexpr(t.Y) + "))"
+			}
+			if g.isNum(t.X) || g.isNum(t.Y) {
+				return "(eq " + g.wexpr(t.X) + " " + g.wexpr(t.Y) + ")"
+			}
+		case token.LSS:
+			return "(lt " + g.wexpr(t.X) + " " + g.wexpr(t.Y) + ")"
+		case token.SUB:
+			return "(sub " + g.wexpr(t.X) + " " + g.wexpr(t.Y) + ")"
+		case token.QUO:
+			return "(div " + g.wexpr(t.X) + " " + g.wexpr(t.Y) + ")"
+		case token.NEQ:
+			if g.isStr(t.X) || g.isStr(t.Y) {
+				return "(!(decide (" + g.wexpr(t.X) + " = " + g.wexpr(t.Y) + ")))"
 			}
 		case token.MUL:
 			return "(mul " + g.wexpr(t.X) + " " + g.wexpr(t.Y) + ")"
@@ -78,6 +114,7 @@ func (g *wktGen) wexpr(e ast.Expr) string {
 			if g.isStr(t.X) || g.isStr(t.Y) {
 				return "(" + g.wexpr(t.X) + " ++ " + g.wexpr(t.Y) + ")"
 			}
+			return "(add " + g.wexpr(t.X) + " " + g.wexpr(t.Y) + ")"
 		}
 	case *ast.CallExpr:
 		if sel, ok := t.Fun.(*ast.SelectorExpr); ok {
@@ -85,6 +122,12 @@ func (g *wktGen) wexpr(e ast.Expr) string {
 				switch {
 				case pk.Name == "math" && sel.Sel.Name == "IsNaN" && len(t.Args) == 1:
 					return "(isNaN " + g.wexpr(t.Args[0]) + ")"
+				case pk.Name == "math" && sel.Sel.Name == "Abs" && len(t.Args) == 1:
+					return "(abs " + g.wexpr(t.Args[0]) + ")"
+				case pk.Name == "math" && sel.Sel.Name == "Sqrt" && len(t.Args) == 1:
+					return "(sqrt " + g.wexpr(t.Args[0]) + ")"
+				case pk.Name == "strings" && sel.Sel.Name == "ToLower" && len(t.Args) == 1:
+					return "(toLower " + g.wexpr(t.Args[0]) + ")"
 				case pk.Name == "strings" && sel.Sel.Name == "TrimSuffix" && len(t.Args) == 2:
 					return "(trimSuffix " + g.wexpr(t.Args[0]) + " " + g.wexpr(t.Args[1]) + ")"
 				}
@@ -94,15 +137,46 @@ func (g *wktGen) wexpr(e ast.Expr) string {
 	return "untranslated_" + g.ident(g.src(e))
 }
 
+func (g *wktGen) isNumConst(e ast.Expr) bool {
+	switch t := e.(type) {
+	case *ast.BasicLit:
+		return t.Kind == token.INT || t.Kind == token.FLOAT
+	case *ast.ParenExpr:
+		return g.isNumConst(t.X)
+	case *ast.UnaryExpr:
+		return g.isNumConst(t.X)
+	case *ast.BinaryExpr:
+		return g.isNumConst(t.X) && g.isNumConst(t.Y)
+	}
+	return false
+}
+
+func (g *wktGen) isNum(e ast.Expr) bool {
+	if g.isNumConst(e) {
+		return true
+	}
+	if id, ok := e.(*ast.Ident); ok {
+		if v, ok := g.consts[id.Name]; ok {
+			return g.isNumConst(v)
+		}
+	}
+	return false
+}
+
 func (g *wktGen) isStr(e ast.Expr) bool {
 	switch t := e.(type) {
 	case *ast.BasicLit:
 		return t.Kind == token.STRING
 	case *ast.Ident:
+		if v, ok := g.consts[t.Name]; ok {
+			if l, ok := v.(*ast.BasicLit); ok && l.Kind == token.STRING {
+				return true
+			}
+		}
 		return t.Name == "longlat" || t.Name == "filename" || t.Name == "fname"
 	case *ast.SelectorExpr:
 		switch t.Sel.Name {
-		case "Name", "DatumCode", "Units", "filename":
+		case "Name", "DatumCode", "Units", "filename", "Axis":
 			return true
 		}
 	case *ast.BinaryExpr:
@@ -143,7 +217,7 @@ func (g *wktGen) assign(s ast.Stmt) (string, bool) {
 func (g *wktGen) block(l []ast.Stmt, ind string) string {
 	var b strings.Builder
 	for _, s := range l {
-		b.WriteString(ind + "let " + g.recv + " := " + g.stmt(s, ind) + "\n")
+		b.WriteString(ind + "let " + g.recv + " : SR α := " + g.stmt(s, ind) + "\n")
 	}
 	b.WriteString(ind + g.recv)
 	return b.String()
@@ -306,6 +380,81 @@ func wktGenOut(repo string) string {
 	fmt.Fprintf(&b, "/-- the statements of `parseWKTUnit` around the use of the conversion factor (source text) -/\ndef genUnitFrame : String := %q\n", strings.Join(unitPre, " ;; "))
 	b.WriteString("/-- what `parseWKTUnit` does with the conversion factor once it has been read, translated -/\n")
 	fmt.Fprintf(&b, "def genUnitSet (%s : SR α) (convert : α) : SR α :=\n%s\n\n", g.recv, body)
+	// ---- deriveConstants.go: the statements between the table lookups and the datum object
+	g.recv = "json"
+	dcGo := parse("proj/deriveConstants.go")
+	g.consts = map[string]ast.Expr{}
+	for _, cf := range []*ast.File{dcGo, parse("proj/transform.go")} {
+		for _, d := range cf.Decls {
+			if gd, ok := d.(*ast.GenDecl); ok && gd.Tok == token.CONST {
+				for _, sp := range gd.Specs {
+					vs := sp.(*ast.ValueSpec)
+					for i, n := range vs.Names {
+						if i < len(vs.Values) && (n.Name == "enu" || cf == dcGo) {
+							g.consts[n.Name] = vs.Values[i]
+						}
+					}
+				}
+			}
+		}
+	}
+	dcBody := "untranslated_missing_DeriveConstants"
+	var dcFrame []string
+	for _, d := range dcGo.Decls {
+		fd, ok := d.(*ast.FuncDecl)
+		if !ok || fd.Name.Name != "DeriveConstants" {
+			continue
+		}
+		if fd.Recv != nil && len(fd.Recv.List) == 1 && len(fd.Recv.List[0].Names) == 1 {
+			g.recv = fd.Recv.List[0].Names[0].Name
+		}
+		var mid []ast.Stmt
+		for _, st := range fd.Body.List {
+			txt := g.src(st)
+			// the table lookups (datumDefs, ellipsoidDefs) and the datum object stay hand-modelled (dcDatum, dcEllps, attachDatum)
+			if strings.Contains(txt, "datumDefs[") || strings.Contains(txt, "ellipsoidDefs[") || strings.Contains(txt, "getDatum()") {
+				dcFrame = append(dcFrame, "<hand-modelled: "+strings.SplitN(txt, "{", 2)[0]+"{…}>")
+				continue
+			}
+			if len(dcFrame) == 2 && len(mid) == 0 {
+				dcFrame = append(dcFrame, "<translated>")
+			}
+			mid = append(mid, st)
+		}
+		dcBody = g.block(mid, "  ")
+	}
+	for _, d := range parse("proj/projString.go").Decls { // const deg2rad
+		if gd, ok := d.(*ast.GenDecl); ok && gd.Tok == token.CONST {
+			for _, sp := range gd.Specs {
+				vs := sp.(*ast.ValueSpec)
+				for i, n := range vs.Names {
+					if n.Name == "deg2rad" && i < len(vs.Values) {
+						g.consts[n.Name] = vs.Values[i]
+						g.useConst(n.Name)
+					}
+				}
+			}
+		}
+	}
+	var cdefs strings.Builder
+	for _, n := range g.used {
+		fmt.Fprintf(&cdefs, "/-- `const %s` of package proj -/\ndef gen_%s : Rat := %s\n", n, n, leanRat(ratOf(g.consts[n])))
+	}
+	b.WriteString(cdefs.String())
+	fmt.Fprintf(&b, "/-- the order of the statement groups of `DeriveConstants` -/\ndef genDeriveFrame : List String := [%s]\n", func() string {
+		var q []string
+		for _, x := range dcFrame {
+			q = append(q, strconv.Quote(x))
+		}
+		return strings.Join(q, ", ")
+	}())
+	b.WriteString("/-- the statements of `DeriveConstants` between the table lookups and `json.datum = json.getDatum()`, translated -/\n")
+	fmt.Fprintf(&b, "def genDeriveArith (%s : SR α) : SR α :=\n%s\n\n", g.recv, dcBody)
+	g.consts = map[string]ast.Expr{}
+
+	// ---- projString.go: the switch of the loop body
+	g.recv = "self"
+	b.WriteString(g.projSwitch(parse("proj/projString.go")))
 	b.WriteString("end\n\n")
 
 	// ---- shp.go: NewDecoder and (*Decoder).SR: the path expressions
@@ -359,5 +508,117 @@ func wktGenOut(repo string) string {
 	b.WriteString("/-- `(*Decoder).SR`: the file it reads -/\n")
 	b.WriteString("def genDecoderPrj (r_filename : Str) : Str :=\n  " + prj + "\n")
 	b.WriteString("\nend GeomV.C20\n")
+	return b.String()
+}
+
+// projSwitch translates `switch paramName { … }` of projString case by case.  Shapes translated:
+//
+//	self.F = paramVal                                              (text)
+//	self.F = true                                                  (flag)
+//	self.F, err = strconv.ParseFloat(paramVal, 64)                 (number)
+//	… followed by self.F *= deg2rad                                (angle in degrees)
+//	default: err = fmt.Errorf("proj: invalid field '%s'", paramName)
+//
+// Cases of any other shape (towgs84, units, pm, nadgrids, axis) stay hand-modelled: the generated definition calls the
+// model's `projKV` for THAT label and lists the label in `genProjHandModelled` (the tie pins the list).
+func (g *wktGen) projSwitch(f *ast.File) string {
+	var sw *ast.SwitchStmt
+	ast.Inspect(f, func(n ast.Node) bool {
+		if t, ok := n.(*ast.SwitchStmt); ok && sw == nil && t.Tag != nil && g.src(t.Tag) == "paramName" {
+			sw = t
+		}
+		return true
+	})
+	var arms, hand []string
+	deflt := "untranslated_no_default"
+	isParse := func(s ast.Stmt) (string, bool) { // self.F, err = strconv.ParseFloat(paramVal, 64)
+		a, ok := s.(*ast.AssignStmt)
+		if !ok || a.Tok != token.ASSIGN || len(a.Lhs) != 2 || len(a.Rhs) != 1 || g.src(a.Lhs[1]) != "err" ||
+			g.src(a.Rhs[0]) != "strconv.ParseFloat(paramVal, 64)" {
+			return "", false
+		}
+		sel, ok := a.Lhs[0].(*ast.SelectorExpr)
+		if !ok || g.src(sel.X) != g.recv {
+			return "", false
+		}
+		return sel.Sel.Name, true
+	}
+	if sw != nil {
+		for _, c := range sw.Body.List {
+			cc := c.(*ast.CaseClause)
+			if cc.List == nil {
+				deflt = "untranslated_" + g.ident(g.src(cc))
+				if len(cc.Body) == 1 && g.src(cc.Body[0]) == `err = fmt.Errorf("proj: invalid field '%s'", paramName)` {
+					deflt = ".error (.error \"invalid field\")"
+				}
+				continue
+			}
+			var cs []string
+			for _, l := range cc.List {
+				cs = append(cs, "(decide (paramName = "+g.wexpr(l)+"))")
+			}
+			cond := "  if (" + strings.Join(cs, " || ") + ") then "
+			res := ""
+			switch len(cc.Body) {
+			case 1:
+				if fld, ok := isParse(cc.Body[0]); ok {
+					res = "(do let v ← parseFloat paramVal; pure { " + g.recv + " with " + leanName(fld) + " := v })"
+				} else if a, ok := cc.Body[0].(*ast.AssignStmt); ok && a.Tok == token.ASSIGN && len(a.Lhs) == 1 && len(a.Rhs) == 1 {
+					sel, ok := a.Lhs[0].(*ast.SelectorExpr)
+					if ok && g.src(sel.X) == g.recv {
+						switch g.src(a.Rhs[0]) {
+						case "paramVal":
+							res = ".ok { " + g.recv + " with " + leanName(sel.Sel.Name) + " := paramVal }"
+						case "true":
+							res = ".ok { " + g.recv + " with " + leanName(sel.Sel.Name) + " := true }"
+						}
+					}
+				}
+			case 2:
+				if fld, ok := isParse(cc.Body[0]); ok && g.src(cc.Body[1]) == g.recv+"."+fld+" *= deg2rad" {
+					res = "(do let v ← parseFloat paramVal; pure { " + g.recv + " with " + leanName(fld) + " := (mul v deg2rad) })"
+				}
+			}
+			if res == "" {
+				if len(cc.List) == 1 {
+					res = "(projKV " + g.recv + " " + g.wexpr(cc.List[0]) + " paramVal)"
+					lab, _ := strconv.Unquote(g.src(cc.List[0]))
+					hand = append(hand, strconv.Quote(lab))
+				} else {
+					res = "untranslated_" + g.ident(g.src(cc))
+				}
+			}
+			arms = append(arms, cond+res+" else")
+		}
+	}
+	// the statements of projString after the loop, before `return self, nil`
+	after := "untranslated_missing_projString"
+	for _, d := range f.Decls {
+		fd, ok := d.(*ast.FuncDecl)
+		if !ok || fd.Name.Name != "projString" {
+			continue
+		}
+		var tail []ast.Stmt
+		seen := false
+		for _, st := range fd.Body.List {
+			if _, ok := st.(*ast.RangeStmt); ok {
+				seen = true
+				continue
+			}
+			if _, ok := st.(*ast.ReturnStmt); ok {
+				continue
+			}
+			if seen {
+				tail = append(tail, st)
+			}
+		}
+		after = g.block(tail, "  ")
+	}
+	var b strings.Builder
+	b.WriteString("/-- the statements of `projString` between its loop and `return self, nil`, translated -/\n")
+	b.WriteString("def genLowerDatum (self : SR α) : SR α :=\n" + after + "\n\n")
+	fmt.Fprintf(&b, "/-- labels of the cases of `projString`'s switch that are NOT translated (hand-modelled in `projKV`) -/\ndef genProjHandModelled : List String := [%s]\n", strings.Join(hand, ", "))
+	b.WriteString("/-- the `switch paramName` of `projString`, translated case by case -/\n")
+	fmt.Fprintf(&b, "def genProjKV (%s : SR α) (paramName paramVal : Str) : Except Err (SR α) :=\n%s\n  %s\n\n", g.recv, strings.Join(arms, "\n"), deflt)
 	return b.String()
 }
